@@ -61,6 +61,10 @@ ZoneEntries == {E(hello, <<49>>, <<unstable>>, << <<urgency, low>> >>, Body3, m1
 lv(d) == <<49, COLON, 50, DOT, 51, 54, DOT, 49, HYPHEN, 56, PLUS, 100, 101, 98, 49, 49, 117, 48 + d>>
 LongVerPair == <<E(hello, lv(2), <<unstable>>, << <<urgency, low>> >>, Body3, m1, D(1, 2, 1, 2006, 15, 4, 5, TRUE, 7, 0)),
                  E(hello, lv(1), <<unstable>>, << <<urgency, low>> >>, Body3, m1, D(7, 1, 1, 2006, 15, 4, 5, TRUE, 7, 0))>>
+\* trailers in the offsets that daylight-saving zones have in winter and in summer: +0100 in January, +0200 in July (Berlin),
+\* -0500 / -0400 (New York), +1100 / +1030 (Lord Howe)
+DstEntries == {E(hello, <<57>>, <<unstable>>, << <<urgency, low>> >>, Body3, m1, D(4, 15, mo, 2015, 12, 3, 40, zn, zh, zm)) :
+                  mo \in {1, 7}, zn \in BOOLEAN, zh \in {1, 2, 4, 5, 10, 11}, zm \in {0, 30}}
 ASSUME Emit(SetToSeq({Vec(es, lead, gap, final) : es \in Models, lead \in {0, 1}, gap \in {1, 2}, final \in BOOLEAN})
-            \o SetToSeq({Vec(<<e>>, 0, 1, TRUE) : e \in ZoneEntries \cup SepEntries \cup DashEntries \cup CrEntries} \cup {Vec(<<ZeroEpoch>>, 0, 1, TRUE), Vec(LongVerPair, 0, 1, TRUE)}))
+            \o SetToSeq({Vec(<<e>>, 0, 1, TRUE) : e \in ZoneEntries \cup SepEntries \cup DashEntries \cup CrEntries \cup DstEntries} \cup {Vec(<<ZeroEpoch>>, 0, 1, TRUE), Vec(LongVerPair, 0, 1, TRUE)}))
 =============================================================================
